@@ -224,6 +224,15 @@ func c15conc(s *Sexp) string {
 			u = g.fn(kind)
 			f := ft.Once(func() { _, _ = u(ctx, 0) })
 			call = func() string { f(); return c15resStr(0, nil) }
+		case "B":
+			// adt.Once driven through Do: every caller passes the function and returns right after Do
+			kind = "O"
+			u = g.fn(kind)
+			ob := &adt.Once[int]{}
+			call = func() string {
+				ob.Do(func() int { _, _ = u(ctx, 0); return 0 })
+				return c15resStr(0, nil)
+			}
 		case "A":
 			kind = "F"
 			u = g.fn(kind)
@@ -311,8 +320,25 @@ func c15conc(s *Sexp) string {
 	case "plaunch":
 		waiter := w.asProducer(u).Launch(ctx)
 		call = func() string { return c15resStr(waiter(ctx)) }
-	case "wstartgroup":
-		waiter := w.asWorker(u).StartGroup(ctx, n)
+	case "wstartgroup", "wstartgroupx":
+		sctx := ctx
+		if subject == "wstartgroupx" {
+			// the group is started under its own context, which ends right after the start; the
+			// waiter is then called with a live context and must still wait for the n executions
+			var scancel context.CancelFunc
+			sctx, scancel = context.WithCancel(ctx)
+			defer scancel()
+			waiter0 := w.asWorker(u).StartGroup(sctx, n)
+			scancel()
+			call = func() string {
+				err := waiter0(ctx)
+				atoms := strings.Split(c15errStr(err), "+")
+				sort.Strings(atoms)
+				return "0/" + strings.Join(atoms, "+")
+			}
+			break
+		}
+		waiter := w.asWorker(u).StartGroup(sctx, n)
 		call = func() string {
 			err := waiter(ctx)
 			atoms := strings.Split(c15errStr(err), "+")
